@@ -271,6 +271,14 @@ fn history(cfg: &Cfg, rep: &mut Report, h: u64, rounds: usize) {
             rep.count(&format!("edit:{}", if r.is_ok() { "ok" } else { "refused" }));
         }
         let _ = rules;
+        // a policy's install / uninstall hooks may start failing: an addition with a failing install is
+        // refused (nothing to model), a removal with a failing uninstall must still detach the policy
+        if rng.chance(1, 8) {
+            let p = rng.idx(u.policies.len());
+            let moods = rng.below(4) as u32;
+            invoke::<()>(e, &u.policies[p], "set_moods", args!(e, moods)).unwrap();
+            rep.op(format!("policy {p}: install {} / uninstall {}", if moods & 1 != 0 { "fails" } else { "works" }, if moods & 2 != 0 { "fails" } else { "works" }));
+        }
         // scripts for the mock policies
         let mut rules = read_rules(&u);
         {
